@@ -6,6 +6,11 @@ package verifnd
 
 import (
 	"context"
+	"crypto/ecdsa"
+	"crypto/ed25519"
+	"crypto/elliptic"
+	"crypto/rand"
+	"crypto/rsa"
 	"crypto/sha256"
 	"crypto/sha512"
 	"encoding/base64"
@@ -14,6 +19,9 @@ import (
 	"fmt"
 	"hash"
 	"math/big"
+	"net/http"
+	"net/http/httptest"
+	"net/url"
 	"os"
 	"reflect"
 	"runtime/debug"
@@ -349,4 +357,78 @@ func runOne(c *caseT, fn func()) (r *resultT) {
 	}()
 	fn()
 	return
+}
+
+// ---- keys ----
+
+var keyCache = map[string][2]any{}
+
+// KeyPair returns a real key pair of the family of alg; the same (id, family) yields the same pair.
+func KeyPair(id, alg string) (priv any, pub any) {
+	fam := "rsa"
+	switch {
+	case strings.HasPrefix(alg, "ES"):
+		fam = "ec" + alg[2:]
+	case alg == "EdDSA":
+		fam = "ed"
+	}
+	k := id + "|" + fam
+	if p, ok := keyCache[k]; ok {
+		return p[0], p[1]
+	}
+	switch {
+	case fam == "rsa":
+		pk, err := rsa.GenerateKey(rand.Reader, 2048)
+		if err != nil {
+			panic(abortT{"rsa keygen: " + err.Error()})
+		}
+		priv, pub = pk, &pk.PublicKey
+	case fam == "ed":
+		pb, pk, _ := ed25519.GenerateKey(rand.Reader)
+		priv, pub = pk, pb
+	default:
+		curve := elliptic.P256()
+		switch fam {
+		case "ec384":
+			curve = elliptic.P384()
+		case "ec512":
+			curve = elliptic.P521()
+		}
+		pk, err := ecdsa.GenerateKey(curve, rand.Reader)
+		if err != nil {
+			panic(abortT{"ecdsa keygen: " + err.Error()})
+		}
+		priv, pub = pk, &pk.PublicKey
+	}
+	keyCache[k] = [2]any{priv, pub}
+	return
+}
+
+// ---- HTTP request ----
+
+// Request builds a real *http.Request. GET: form goes into the query; otherwise into an
+// x-www-form-urlencoded body. badForm appends a malformed escape so that ParseForm fails.
+func Request(method, target string, form url.Values, basicUser, basicPass string, hasBasic, badForm bool) *http.Request {
+	enc := form.Encode()
+	if badForm {
+		if enc != "" {
+			enc += "&"
+		}
+		enc += "bad=%zz"
+	}
+	var r *http.Request
+	if method == http.MethodGet || method == http.MethodHead {
+		u := target
+		if enc != "" {
+			u += "?" + enc
+		}
+		r = httptest.NewRequest(method, u, nil)
+	} else {
+		r = httptest.NewRequest(method, target, strings.NewReader(enc))
+		r.Header.Set("Content-Type", "application/x-www-form-urlencoded")
+	}
+	if hasBasic {
+		r.Header.Set("Authorization", "Basic "+base64.StdEncoding.EncodeToString([]byte(basicUser+":"+basicPass)))
+	}
+	return r
 }
